@@ -302,6 +302,10 @@ class Check:
     def classify(self, case: dict, impl: Any) -> str:
         return case.get("kind", "case")
 
+    def shrink_candidates(self, case: dict) -> List[dict]:
+        """Smaller variants of a failing case (delta debugging); default: none."""
+        return []
+
     def static_checks(self) -> List[str]:
         """Property-specific extra obligations on the generated tables etc.; returns problems."""
         return []
@@ -432,9 +436,35 @@ def _eval_cases(check: Check, cases: List[dict], with_model: bool, stats: dict):
     return disagreements, violations
 
 
+def _shrink(check: Check, case: dict, site: str, budget: float = 25.0) -> Optional[dict]:
+    """Greedy minimisation: keep a smaller variant as long as the oracle still reports the same site."""
+    ts = time.time()
+    best, improved = case, True
+    shrunk = False
+    while improved and time.time() - ts < budget:
+        improved = False
+        for cand in check.shrink_candidates(best):
+            if time.time() - ts > budget:
+                break
+            out = _impl_one((check, cand))
+            if isinstance(out, dict) and "harness_error" in out:
+                continue
+            try:
+                sites = {v.get("site") for v in check.oracle(cand, out)}
+            except Exception:
+                continue
+            if site in sites:
+                best, improved, shrunk = cand, True, True
+                break
+    return best if shrunk else None
+
+
 def _run(check: Check, tier: str, seed: int, replay: Optional[str], t0: float) -> int:
     pid = check.pid
     rng = random.Random(f"{pid}-{seed}")
+    if not replay and REPLAYS.is_dir():
+        for old in REPLAYS.glob(f"{pid}-{seed}-*.json"):  # replays of an earlier run with this seed would only confuse
+            old.unlink()
     red: List[str] = []  # names of proof obligations / ties that no longer check
     detail: Dict[str, Any] = {}
 
@@ -524,6 +554,9 @@ def _run(check: Check, tier: str, seed: int, replay: Optional[str], t0: float) -
         for v in new_violations:
             by_site.setdefault(v.get("site", "?"), v)
         for n, (site, v) in enumerate(by_site.items()):
+            small = _shrink(check, v["case"], site) if n < 3 else None
+            if small is not None:
+                v = dict(v, case=small, minimised_from=v["case"])
             path = write_replay(
                 pid,
                 seed,
@@ -536,6 +569,7 @@ def _run(check: Check, tier: str, seed: int, replay: Optional[str], t0: float) -
                     "observed": v.get("observed"),
                     "expected": v.get("expected"),
                     "rerun": f"./check {pid} --replay replays/{pid}-{seed}-{n}.json",
+                    "minimised_from": v.get("minimised_from"),
                     "broken_obligations": red,
                 },
             )
